@@ -8,7 +8,8 @@ AREA = "c02"
 LEAN_PROPS = "Litep2pVerif.Props.C02"
 THEOREMS = ["term_model_laws", "real_params_ok", "write_total_old_constant_witness", "write_total", "write_stream_eq",
             "read_no_oob", "read_stream_eq", "tamper_detected", "tamper_cases", "tamper_instances",
-            "write_read_roundtrip"]
+            "write_read_roundtrip", "flush_delivers_everything_accepted", "close_delivers_everything_accepted",
+            "write_pending_registered"]
 CONSTS = ["MAX_NOISE_MSG_LEN", "NOISE_EXTRA_ENCRYPT_SPACE", "MAX_READ_AHEAD_FACTOR", "MAX_WRITE_BUFFER_SIZE",
           "SNOW_MAXMSGLEN", "SNOW_TAGLEN"]
 MANIFEST = {
@@ -27,8 +28,18 @@ MANIFEST = {
             "once the carrier has delivered the stream and closed; write_total with the side condition "
             "MAX_FRAME_LEN + 16 <= snow MAXMSGLEN decided on the regenerated constants; write_read_roundtrip: after a "
             "successful poll_flush and complete delivery the reader obtains exactly the wpos bytes accepted by "
-            "poll_write. Plus a seeded correspondence run of a real NoiseSocket pair (real handshake, scripted "
-            "in-memory carrier with chunking, Pending, faults and frame-level tampering, re-polls after read errors) "
+            "poll_write; flush_delivers_everything_accepted / close_delivers_everything_accepted (teardown under "
+            "back-pressure): poll_flush = drain loop (ready! on every inner poll_write) then the carrier's poll_flush, "
+            "poll_close = ready!(poll_flush)? then the carrier's poll_close; for every schedule of carrier answers "
+            "(partial writes, Pending, Ok(0), errors of poll_write; Pending/errors of the inner poll_flush/poll_close) "
+            "and any number of polls: Ready(Ok) means the carrier holds the complete wire image of ALL bytes poll_write "
+            "ever accepted, the encrypt buffer is empty, the carrier flushed after its last write (and is closed, for "
+            "close) and a reader fed with these bytes returns exactly the accepted plaintext; the carrier is closed only "
+            "by a poll_close that returns Ready(Ok); Ready(Ok) comes within one poll per scripted answer plus one when "
+            "the carrier never fails; write_pending_registered: a Pending of poll_write/poll_flush/poll_close is a "
+            "Pending of the carrier in that very call (no lost wake-up). Plus a seeded correspondence run of a real NoiseSocket pair (real handshake, scripted "
+            "in-memory carrier with chunking, Pending with stored wakers, faults and frame-level tampering, re-polls after "
+            "read errors, flush/close polled at any point of a write history while the carrier stalls) "
             "against the model, and a property-level oracle.",
     "note": "Trusted: Lean kernel; axioms propext/Classical.choice/Quot.sound; the hand-written model and its tie "
             "(sampled differential runs through adapter src/verif/c02.rs); ChaCha20-Poly1305/snow idealised as an AEAD "
@@ -54,11 +65,18 @@ RULE = ("seeded op sequences on a real NoiseSocket pair and on the Lean model: c
         "{1,2,15,16,17,1024,65517..65522,131036..131042,200000}; reader buffers {0,1,2,16,17,1024,65503,65519,65536,131072}; "
         "carrier deliveries in random chunks incl. 1 byte, scripted per-inner-poll chunk caps, Pending/EOF/error injection on "
         "both directions, write back-pressure; single-frame flip/truncate/duplicate/drop/swap of ciphertext frames; final "
-        "drain (flush, deliver all, close, read until error). A case is non-trivial if at least two reads returned data; "
+        "drain (flush, deliver all, close, read until error); teardown family (quick: 60 cases per seed): accepted but "
+        "unflushed data, then close/flush polled 1-3 times under scripted stalls of the inner poll_write (Pending, partial "
+        "writes, 12 % with Ok(0)/Err) and of the inner poll_flush/poll_close, writes between polls, end of the stall, final "
+        "close, drain through the reader without `carrier close`; reader-EOF family (quick: 30 per seed): carrier closes on a "
+        "frame boundary / 1, 2, 3, 17, 18 bytes into a frame / mid-body / one byte before its end while the reader, with "
+        "buffers {1,3,16,30,1000,65519,131072}, holds a partially consumed decrypted frame; 40 % with late data after the "
+        "EOF. A case is non-trivial if at least two reads returned data; "
         "distinct = distinct (ops, observations) transcripts by SHA-256")
 TRUSTED_BASE = ["Lean 4.33 kernel", "axioms: propext, Classical.choice, Quot.sound only",
                 "hand-written model Model/Noise/Transport.lean tied to crypto/noise/mod.rs by this correspondence run",
-                "adapter /repo/src/verif/c02.rs (scripted carrier, frame bookkeeping), harness, verif.py, checks/c02.py",
+                "adapter /repo/src/verif/c02.rs (scripted carrier, frame bookkeeping incl. the `short`/`unflushed`/`open` "
+                "report after a successful flush/close and the waker registration flag), harness, verif.py, checks/c02.py",
                 "snow TransportState and ChaCha20-Poly1305 idealised: AEAD with per-direction nonce counter, |enc n p| = |p| + 16, "
                 "dec n c = some p <-> c = enc n p, injective in (n, p), only the writer's frames decrypt (hypotheses of the "
                 "theorems, proved for the free term model)",
@@ -66,7 +84,11 @@ TRUSTED_BASE = ["Lean 4.33 kernel", "axioms: propext, Classical.choice, Quot.sou
 ASSUMPTIONS = ["F >= 1 and W >= 1 (F = 0 fails every read with UnexpectedEof, W = 0 never accepts a write)",
                "callers stop writing after a write/flush error (the adapter answers `fused`); the reader may be polled again "
                "after an error (modelled, compared, checked by the oracle: never a panic, never altered plaintext)",
-               "the inner AsyncRead never reports more bytes than the buffer it was given"]
+               "the inner AsyncRead never reports more bytes than the buffer it was given",
+               "callers do not write, flush or close again after a successful close (the adapter answers `closed`); a "
+               "Pending close may be followed by further writes (modelled, compared)",
+               "the carrier's own poll_flush / poll_close return Ready(Ok) unless scripted otherwise; bytes the carrier "
+               "accepted before its successful poll_close are still delivered, then the reader's carrier reports Ok(0)"]
 KEEP_PREFIX = 1
 
 MAXF_NEIGHBOURHOOD = [65517, 65518, 65519, 65520, 65521, 65522]
@@ -255,8 +277,106 @@ def gen_write_pressure(rng):
     return ops
 
 
+def _stall(rng, n):
+    """Answers of a carrier that is momentarily not writable: Pending and partial writes, no faults."""
+    return [rng.choice(["p", "p", "p", "1", "2", "17", "19", "1000", "65536", "70000"]) for _ in range(n)]
+
+
+def gen_teardown(rng):
+    """Teardown under back-pressure: data accepted by `write` but not yet flushed, then `close` (or `flush`) polled while
+    the carrier's poll_write / poll_flush / poll_close answer Pending or take only part of the buffer; the caller polls
+    again (possibly writing more in between), the stall ends, the poll completes; then the reader drains the wire. The
+    write half is closed by the writer (no `carrier close`): the reader reaches EOF only after everything accepted."""
+    F, W = rng.choice([1, 2, 5]), rng.choice([1, 2, 3])
+    ops = [f"cfg {F} {W}"]
+    big = rng.random() < 0.3
+    frames = 0
+    for _ in range(rng.randrange(0, 3)):                       # earlier traffic, partly flushed
+        if rng.random() < 0.5:
+            ops.append("carrier wscript " + " ".join(_stall(rng, rng.randrange(1, 4))))
+        n = _write_size(rng, big)
+        ops.append(f"write {n}")
+        frames += n // FRAME + 2
+        r = rng.random()
+        if r < 0.4:
+            ops.append("flush")
+        elif r < 0.5:
+            ops += ["flush", "flush"]
+    stall = _stall(rng, rng.randrange(1, 5))
+    if rng.random() < 0.7:
+        stall[0] = "p"                                         # not writable at the moment of the close
+    faulty = rng.random() < 0.12
+    if faulty:
+        stall.insert(rng.randrange(0, len(stall) + 1), rng.choice(["x", "z"]))
+    ops.append("carrier wscript " + " ".join(stall))
+    for _ in range(rng.randrange(1, 3)):
+        n = _write_size(rng, big)
+        ops.append(f"write {n}")
+        frames += n // FRAME + 2
+    if rng.random() < 0.3:
+        ops.append("carrier fscript " + " ".join(rng.choice(["p", "p", "p", "x"]) if faulty else "p"
+                                                  for _ in range(rng.randrange(1, 3))))
+    if rng.random() < 0.3:
+        ops.append("carrier cscript " + " ".join(rng.choice(["p", "p", "p", "x"]) if faulty else "p"
+                                                  for _ in range(rng.randrange(1, 3))))
+    fin = rng.choice(["close", "close", "close", "flush"])
+    for _ in range(rng.randrange(1, 4)):
+        ops.append(fin)
+        if rng.random() < 0.2:
+            n = rng.choice(SMALL_WRITES)
+            ops.append(f"write {n}")
+            frames += 2
+        if rng.random() < 0.3:
+            ops.append(f"carrier deliver {rng.choice([1, 2, 19, 20, 1042, 65537, rng.randrange(1, 140000)])}")
+            ops.append(f"read {_read_buf(rng, big)}")
+    ops += ["carrier clear", fin, "close"]                     # the stall is over: the caller's poll completes
+    if rng.random() < 0.5:
+        for _ in range(rng.randrange(1, 3)):
+            ops.append(f"carrier deliver {rng.choice([1, 2, 3, 18, 19, 20, 1042, 65537, rng.randrange(1, 140000)])}")
+            ops.append(f"read {_read_buf(rng, big)}")
+    ops.append("carrier deliver all")
+    if big:
+        ops += [f"read {rng.choice([65519, 65536, 131072])}" for _ in range(frames + 3)]
+    else:
+        ops += [f"read {_read_buf(rng, False) or 1}" for _ in range(rng.randrange(0, 5))] + ["read 131072"] * (frames + 3)
+    return ops
+
+
+def gen_reader_eof(rng):
+    """The reader's side of a teardown: the carrier closes exactly on a frame boundary or in the middle of a frame (inside
+    the length prefix, right behind it, inside the body, one byte before the end), while the reader — with small buffers —
+    has only partially consumed the frame it decrypted last. Every complete frame must come out before the EOF error."""
+    F = rng.choice([1, 2, 5])
+    sizes = [rng.choice([1, 16, 17, 100, 1024, 5000, 40000, 65519]) for _ in range(rng.randrange(2, 5))]
+    ops = [f"cfg {F} 3"]
+    for n in sizes:
+        ops += [f"write {n}", "flush"]
+    wire = [n + 18 for n in sizes]
+    j = rng.randrange(0, len(sizes) + 1)
+    base = sum(wire[:j])
+    cut = base + (rng.choice([0, 0, 1, 2, 3, 17, 18, wire[j] // 2, wire[j] - 1]) if j < len(sizes) else 0)
+    if cut > 0:
+        a = rng.choice([cut, cut, rng.randrange(1, cut + 1)])
+        ops.append(f"carrier deliver {a}")
+        if rng.random() < 0.5:
+            ops.append(f"read {rng.choice([1, 3, 30, 1000, 131072])}")
+        if cut > a:
+            ops.append(f"carrier deliver {cut - a}")
+    k = rng.choice([1, 3, 16, 30, 1000, 65519, 131072])
+    ops += [f"read {k}"] * rng.randrange(0, 3)
+    ops.append("carrier close")
+    ops += [f"read {k}"] * rng.randrange(1, 8) + ["read 131072"] * (len(sizes) + 2)
+    if rng.random() < 0.4:                                     # the rest arrives after the reader saw EOF
+        ops += ["carrier deliver all"] + [f"read {rng.choice([k, 131072])}"] * (len(sizes) + 2)
+    return ops
+
+
 def corpus():
     return [
+        # teardown under back-pressure (seeded change C02-e2): accepted, not flushed, close while the carrier is Pending
+        ["cfg 5 2", "write 1000", "carrier wscript p", "close", "close", "carrier deliver all", "read 2000", "read 2000"],
+        ["cfg 1 1", "carrier wscript p 19 p", "write 40", "write 3", "carrier fscript p", "carrier cscript p", "close", "close",
+         "close", "close", "close", "carrier deliver all", "read 100", "read 100", "read 100"],
         # DESIGN §8 (a): a write of MAX_FRAME_LEN+1 bytes (65520 on the old constants) must succeed
         ["cfg 5 2", "write 65520", "flush", "carrier deliver all", "carrier close", "read 131072", "read 131072", "read 131072"],
         ["cfg 1 1", "write 200000", "flush", "write 200000", "flush", "carrier deliver all", "carrier close"] + ["read 65536"] * 9,
@@ -289,6 +409,9 @@ def gen_cases(rng, tier):
             yield gen_grid(rng)
         else:
             yield gen_case(rng, kinds[i % len(kinds)])
+    # teardown families (appended: the cases above stay what they were for every seed)
+    for i in range({"quick": 90, "thorough": 3000, "search": 500}[tier]):
+        yield gen_reader_eof(rng) if i % 3 == 2 else gen_teardown(rng)
 
 
 def mutate_case(rng, case, n):
@@ -299,8 +422,10 @@ def mutate_case(rng, case, n):
             r = rng.random()
             if r < 0.4:
                 del c[i]
-            elif r < 0.7:
+            elif r < 0.65:
                 c.insert(i, rng.choice(case[1:]))
+            elif r < 0.8:
+                c.insert(i, rng.choice(["close", "flush", "carrier wscript p", "carrier wscript 19 p", "carrier clear"]))
             else:
                 c.insert(i, f"read {rng.choice(READ_BUFS)}")
             if len(c) < 2:
@@ -315,7 +440,12 @@ def oracle(case, out):
     (closed, drained) carrier is exhausted; writes of every size are accepted; polling the reader
     again after an error never panics and never yields bytes that are not the writer's stream at
     that position (after an `invalid-data` error the reader may resynchronise on genuine later
-    frames -- the caller has been warned -- so the tamper limit is only enforced up to that error)."""
+    frames -- the caller has been warned -- so the tamper limit is only enforced up to that error).
+    Teardown: a successful flush/close means every byte accepted by write is with the carrier (complete
+    frames, carrier flushed, and closed for close); flush/close complete once the carrier stops stalling
+    (a Pending consumes a scripted answer and comes with a registered waker); the reader reaches the end
+    of the stream only after every complete frame that was delivered to it has been handed out -- all
+    accepted bytes if the writer closed successfully."""
     bad = []
 
     def v(kind, msg, i):
@@ -333,6 +463,47 @@ def oracle(case, out):
     partial_cut = False   # the carrier was closed while data was still in flight
     warned = False        # the reader has already returned `invalid-data`
     hard, flips = {}, {}  # tampered frames by plaintext start: hard limit / accumulated flip masks by byte offset
+    wclosed = False       # `close` returned ok: the writer closed the write half after handing everything over
+    wstall = 0            # upper bound of the scripted answers of the writer's carrier still to come
+    fsizes = []           # plaintext sizes of the frames produced by the accepted writes, in order
+    wire_moved = 0        # ciphertext bytes moved into the reader's inbox
+    tampered = False      # some tamper op changed the wire
+
+    def complete_plain():
+        """plaintext bytes of the frames that were completely delivered to the reader"""
+        tot = acc = 0
+        for n in fsizes:
+            acc += n + 18
+            if acc > wire_moved:
+                break
+            tot += n
+        return tot
+
+    def teardown(i, what, o):
+        """`flush` / `close` op with observation `o`"""
+        nonlocal flushed, wclosed, wstall
+        f = o.split()
+        if f[:2] == ["pending", "nowake"]:
+            v("lost-wakeup", f"poll_{what} returned Pending although no Pending of the carrier registered the waker", i)
+        if f[0] == "pending":
+            if wstall == 0:
+                v("teardown-stuck", f"poll_{what} is Pending although the carrier accepts everything (no scripted answer left)", i)
+            wstall = max(0, wstall - 1)
+        elif f[0] == "ok":
+            flushed = True
+            if what == "close":
+                wclosed = True
+            if "short" in f:
+                got = f[f.index("short") + 1] if f.index("short") + 1 < len(f) else "?"
+                v(f"{what}-incomplete", f"poll_{what} returned Ok although the frames handed to the carrier cover only "
+                                        f"{got} (complete frames/accepted) plaintext bytes", i)
+            if "unflushed" in f:
+                v(f"{what}-incomplete", f"poll_{what} returned Ok without flushing the carrier after its last write", i)
+            if "open" in f:
+                v("close-incomplete", "poll_close returned Ok without closing the carrier", i)
+        elif f[0] == "err" and not wfault:
+            v("write-error", f"poll_{what} failed with `{o}` although the carrier never failed", i)
+
     for i, op in enumerate(case):
         if i >= len(out):
             break
@@ -343,7 +514,7 @@ def oracle(case, out):
             break
         if o == "skipped":
             break
-        if o in ("bad-op", "fused") or not t:
+        if o in ("bad-op", "fused", "closed") or not t:
             continue
         if t[0] == "cfg":
             if o != "ok":
@@ -352,9 +523,10 @@ def oracle(case, out):
             F, W = int(t[1]), int(t[2])
             wpos = rtotal = 0
             limit = None
-            wfault = rfault_e = rfault_x = closed = partial_cut = warned = False
+            wfault = rfault_e = rfault_x = closed = partial_cut = warned = wclosed = tampered = False
             hard, flips = {}, {}
             flushed = delivered_all = scripts_clear = True
+            wstall, fsizes, wire_moved = 0, [], 0
         elif t[0] == "write":
             n = int(t[1])
             if o.startswith("ok"):
@@ -362,22 +534,23 @@ def oracle(case, out):
                 if k > n or (n > 0 and k == 0):
                     v("write-count", f"write of {n} bytes reported {k} accepted", i)
                 wpos += k
+                fsizes += [FRAME] * (k // FRAME) + ([k % FRAME] if k % FRAME else [])
                 if k > 0:
                     flushed = False
                     delivered_all = False
-            elif o == "pending":
+            elif o.startswith("pending"):
+                if o != "pending":
+                    v("lost-wakeup", "poll_write returned Pending although no Pending of the carrier registered the waker", i)
                 if flushed and n > 0 and W >= 1:
                     v("write-stuck", f"write of {n} bytes is Pending although the write buffer is empty (W={W})", i)
             elif o.startswith("err"):
                 if not wfault:
                     v("write-error", f"poll_write({n} bytes) failed with `{o}` although the carrier never failed", i)
-        elif t[0] == "flush":
-            if o == "ok":
-                flushed = True
-            elif o.startswith("err") and not wfault:
-                v("write-error", f"poll_flush failed with `{o}` although the carrier never failed", i)
+        elif t[0] in ("flush", "close") and len(t) == 1:
+            teardown(i, t[0], o)
         elif t[0] == "carrier":
             if t[1] == "deliver" and o.startswith("ok"):
+                wire_moved += int(o.split()[1])
                 if t[2] == "all" and flushed:
                     delivered_all = True
             elif t[1] == "close":
@@ -386,14 +559,20 @@ def oracle(case, out):
                     partial_cut = True
             elif t[1] == "clear":
                 scripts_clear = True
+                wstall = 0
+            elif t[1] in ("fscript", "cscript") and o == "ok":
+                wfault = wfault or "x" in t[2:]
+                wstall += len(t) - 2
             elif t[1] == "rscript" and o == "ok":
                 scripts_clear = False
                 rfault_e = rfault_e or "e" in t[2:]
                 rfault_x = rfault_x or "x" in t[2:]
             elif t[1] == "wscript" and o == "ok":
                 wfault = wfault or "z" in t[2:] or "x" in t[2:]
+                wstall += len(t) - 2
         elif t[0] == "tamper":
             if o.startswith("ok"):
+                tampered = True
                 # `ok @<plaintext start of the frame> +<its plaintext length>`
                 p, l = int(o.split()[1][1:]), int(o.split()[2][1:])
                 if t[1] == "flip" and len(t) == 5 and p not in hard:
@@ -424,19 +603,29 @@ def oracle(case, out):
                     v("tamper-accepted", f"bytes up to position {rtotal} returned although the frame at {limit} was tampered with", i)
                 if n == 0 and k > 0:
                     v("read-zero", "read returned Ok(0) for a non-empty buffer", i)
-            elif o == "pending":
-                if closed and delivered_all and scripts_clear and k > 0:
+            elif o.startswith("pending"):
+                if o != "pending":
+                    v("lost-wakeup", "poll_read returned Pending although no Pending of the carrier registered the waker", i)
+                if (closed or wclosed) and delivered_all and scripts_clear and k > 0:
                     v("read-stuck", "read is Pending although the carrier is closed and drained", i)
             elif o.startswith("err"):
                 cls = o.split()[1]
                 warned = warned or cls == "invalid-data"
-                cause = {"eof": closed or rfault_e or F == 0, "reset": rfault_x,
+                cause = {"eof": closed or wclosed or rfault_e or F == 0, "reset": rfault_x,
                          "invalid-data": limit is not None, "permission-denied": False}.get(cls, False)
                 if not cause:
                     v("read-error", f"read failed with `{o}` without a cause (no tampering, no carrier fault)", i)
                 elif (cls == "eof" and closed and limit is None and not rfault_e and not partial_cut
                       and flushed and delivered_all and scripts_clear and not wfault and F >= 1 and rtotal != wpos):
                     v("stream-loss", f"end of stream after {rtotal} bytes, {wpos} were written, flushed and delivered", i)
+                elif (cls == "eof" and wclosed and not closed and not tampered and not rfault_e and not wfault and F >= 1
+                      and rtotal != wpos):
+                    # the writer's close succeeded and nobody else cut the stream: EOF comes after everything accepted
+                    v("stream-loss", f"end of stream after {rtotal} bytes, {wpos} were accepted before the writer's close "
+                                     f"succeeded", i)
+                elif (cls == "eof" and not tampered and not rfault_e and F >= 1 and rtotal < complete_plain()):
+                    v("eof-early", f"end of stream reported after {rtotal} bytes although complete frames holding "
+                                   f"{complete_plain()} bytes had been delivered to the reader", i)
     return bad
 
 
